@@ -39,7 +39,7 @@ def main():
         res = {"demo_pristine_exit": r0.returncode, "patch_applies": ap.returncode == 0, "demo_patched_exit": r1.returncode,
                "demo_patched_tail": r1.stdout.strip().splitlines()[-3:]}
         if baseline:
-            rb = sh(f"/venv/bin/python /verif/tools/baseline.py {wt} -n 12")
+            rb = sh(f"/venv/bin/python /verif/tools/baseline.py {wt} -n 5")
             res["baseline_tail"] = rb.stdout.strip().splitlines()[-1:]
             res["baseline_ok"] = rb.returncode == 0
         caught = {}
@@ -60,7 +60,7 @@ def main():
                     shutil.copy(f"{src}/{f}", dst)
             meta = json.load(open(f"{dst}/meta.json")) if os.path.exists(f"{dst}/meta.json") else {}
             meta["validation"] = {k: v for k, v in res.items() if k != "checks"}
-            meta["validation"]["commands"] = [f"{runner} (pristine worktree)", "git apply patch.diff", f"{runner} (patched)", "tools/baseline.py <worktree> -n 12 (6710 stable tests)"]
+            meta["validation"]["commands"] = [f"{runner} (pristine worktree)", "git apply patch.diff", f"{runner} (patched)", "tools/baseline.py <worktree> -n 5 (6710 stable tests)"]
             json.dump(meta, open(f"{dst}/meta.json", "w"), indent=1)
     finally:
         sh(f"git -C /repo worktree remove --force {wt}")
